@@ -19,6 +19,7 @@ import numpy as np
 
 from ..core import Machinery, validate_trace, VERIF, REPO
 from .. import pipeline
+from .. import retrieval_rec
 from . import C03
 
 
@@ -124,8 +125,10 @@ def run(ctx):
     for v in ('no_reinit', 'star_once', 'alt_before_chem'):
         ctx.expect_refuted('mutant-' + v, 'MC_Pipeline', 'MC_Pipeline_%s.cfg' % v, 'GuardsHold')
     pipeline.install()
+    retrieval_rec.install()
     rng = random.Random(ctx.seed + 77)
     events, labels = [], {}
+    retr_events = []
     try:
         for i in range(6 if q else 60):
             pipeline.start(i)
@@ -139,8 +142,14 @@ def run(ctx):
             tmp = tempfile.mkdtemp(prefix='verifx01_')
             try:
                 pipeline.start(1000 + j)
+                retrieval_rec.start()
                 ops = scenario_cli_retrieval(tmp, ctx.seed + j)
                 evs = pipeline.stop()
+                revs = retrieval_rec.stop()
+                base_r = max([e['tid'] for e in retr_events] + [0])
+                for e in revs:
+                    e['tid'] += base_r
+                retr_events.extend(revs)
             finally:
                 shutil.rmtree(tmp, ignore_errors=True)
             if len(evs) < 200:
@@ -212,6 +221,46 @@ def run(ctx):
     else:
         if not ctx.has_violations():
             raise Machinery('no trace available for the canary')
+    validate_retrievals(ctx, retr_events)
+
+
+def validate_retrievals(ctx, retr_events):
+    ctx.check_spec('retrieval-design', 'MC_Retrieval', 'MC_Retrieval_asbuilt.cfg')
+    for v in ('like_no_update', 'profiles_no_model', 'spectra_before_model'):
+        ctx.expect_refuted('retrieval-mutant-' + v, 'MC_Retrieval', 'MC_Retrieval_%s.cfg' % v, 'GuardsHold')
+    if not retr_events:
+        raise Machinery('no retrieval events recorded')
+    tl = retrieval_rec.for_tlc(retr_events)
+    nlike = sum(1 for e in tl if e['ev'] == 'like_end')
+    if nlike < 20 or not any(e['ev'] == 'profiles' for e in tl) or not any(e['ev'] == 'spectra_store' for e in tl):
+        raise Machinery('retrieval trace incomplete: %d likelihood evaluations' % nlike)
+    ok, bad, res = validate_trace('Trace_Retrieval', 'Trace_Retrieval.cfg', tl, timeout=1800)
+    ctx.add_tlc('trace-retrieval', res, counts=False)
+    if res.postcondition_false and not bad:
+        raise Machinery('retrieval trace not fully consumed:\n' + res.out[-1500:])
+    badt = {b['tid']: b for b in bad}
+    tids = sorted({e['tid'] for e in tl})
+    ctx.traces += len(tids)
+    for t in tids:
+        b = badt.get(t)
+        ctx.verdict('retrieval_protocol', b is None, cls='cli-retrieval' + (':' + b['ev'] if b else ''),
+                    detail='rejected at %r' % (b,), vector=dict(trace='cli-retrieval'))
+    ctx.note('retrieval protocol: %d events, %d likelihood evaluations (%d non-finite) in %d retrievals' % (
+        len(tl), nlike, sum(1 for e in tl if e['ev'] == 'like_end' and not e['finite']), len(tids)))
+    ctx.add_sample(dict(retrieval_trace_head=tl[:12]))
+    # canary: drop the model evaluation that follows the last parameter write before 'profiles'
+    good = [t for t in tids if t not in badt]
+    for t in good:
+        tr = [e for e in tl if e['tid'] == t]
+        ip = max(i for i, e in enumerate(tr) if e['ev'] == 'profiles')
+        im = max(i for i, e in enumerate(tr[:ip]) if e['ev'] == 'model')
+        iu = max(i for i, e in enumerate(tr[:ip]) if e['ev'] == 'update')
+        if im > iu:
+            del tr[im]
+            ok2, bad2, _ = validate_trace('Trace_Retrieval', 'Trace_Retrieval.cfg', tr)
+            if ok2 or not bad2:
+                raise Machinery('canary accepted: retrieval trace validation is vacuous')
+            break
 
 
 def replay(ctx, violations):
